@@ -10,7 +10,7 @@ LEVEL = 'model_checking'
 ENGINE = 'E1+E3'
 TECHNIQUE = 'exhaustive enumeration of all pairs of (range, step, time step, extra) requests per shot on the real solver, rows matched by distance; plus all point sequences up to depth n through real record filters that differ only in recording parameters'
 RULE = ('requests = range {150,300,412.5 ft} x step {R,10,37.5,75,150,0.3 ft} x time step {0,.01,.1,2e-5 s} x {plain,extra} = 144 per shot; pair cells = every '
-        'unordered pair of requests of a shot (grouped in blocks), shots {multi-wind, transonic look 10, arc 30 deg, tail wind}; rows matched by '
+        'unordered pair of requests of a shot (grouped in blocks), shots {multi-wind, transonic look 10, arc 30 deg, tail wind} + two long nearly level shots with ranges 800-1500 yd (gravity drop > 30 ft inside the shorter range); rows matched by '
         'distance (1e-12 rel) must agree in every column (1e-9 rel); for equal (R,s,dt) every plain row occurs in the extra result and extra-only rows carry an event flag; '
         'filter cells = advance sequences <= n over {0.75,1,1.25}u with a sight-line crossing and a Mach crossing, run through 12 filter configurations; '
         'non-trivial = a pair of requests that share at least one recording distance other than the muzzle')
@@ -23,17 +23,22 @@ SHOTS = {
     'transonic': {'zero': 0.5, 'twist': 12.0, 'dm': 'G1', 'bc': 0.1, 'mv': 1250.0, 'look': 10.0},
     'arc30': {'zero': 30.0, 'mv': 1500.0},
     'tail': {'wind': 'tail', 'zero': 0.2},
+    # long, nearly level: the bullet falls through the 30-ft atmosphere shortcut well inside the shorter ranges, and the ranges straddle
+    # range x tan(elevation) = 30 ft, so anything decided from the requested range alone shows up
+    'flat_long': {'zero': 0.4, '_ranges': (3600.0, 4200.0, 4500.0), '_steps': ('R', 300.0, 900.0), '_tsteps': (0.0, 0.5)},
+    'down_long': {'zero': -0.3, 'sh': 0.0, '_ranges': (2400.0, 3300.0), '_steps': ('R', 300.0), '_tsteps': (0.0,)},
 }
 RANGES = (150.0, 300.0, 412.5)
 TSTEPS = (0.0, 0.01, 0.1, 2e-5)     # the last one is shorter than one integration step (about 9e-5 s at the muzzle)
 NBLOCKS = 4
 
 
-def requests():
+def requests(name=None):
     out = []
-    for R in RANGES:
-        for st in (R, 10.0, 37.5, 75.0, 150.0, 0.3):
-            for ts in TSTEPS:
+    spec = SHOTS.get(name, {})
+    for R in spec.get('_ranges', RANGES):
+        for st in [R if x == 'R' else x for x in spec.get('_steps', ('R', 10.0, 37.5, 75.0, 150.0, 0.3))]:
+            for ts in spec.get('_tsteps', TSTEPS):
                 for ex in (False, True):
                     out.append((R, st, ts, ex))
     return out
@@ -77,9 +82,9 @@ def pairs(cell):
     import py_ballisticcalc as pb
     U = pb.Unit
     name, ba, bb = cell
-    shot = make_shot(SHOTS[name])
+    shot = make_shot({k: v for k, v in SHOTS[name].items() if not k.startswith('_')})
     calc = make_calc()
-    reqs = requests()
+    reqs = requests(name)
     blocks = [reqs[k::NBLOCKS] for k in range(NBLOCKS)]
     need = blocks[ba] + (blocks[bb] if bb != ba else [])
     res = {}
@@ -173,7 +178,7 @@ PARTS = {'pairs': pairs, 'filter': filt}
 
 
 def plan(tier):
-    shots = list(SHOTS) if tier == 'thorough' else ['multiwind', 'transonic', 'tail']
+    shots = list(SHOTS) if tier == 'thorough' else ['multiwind', 'transonic', 'tail', 'flat_long', 'down_long']
     pr = [[s, a, b] for s in shots for a in range(NBLOCKS) for b in range(a, NBLOCKS)]
     depth = 6 if tier == 'quick' else 8
     fl = [[list(p), depth] for p in itertools.product((0.75, 1.0, 1.25), repeat=3)]
